@@ -73,9 +73,13 @@ func idleBurstMain(args mon.Args) {
 				conf[protoNames[p].conf+"-port"] = strconv.Itoa(ports[p])
 				conf[protoNames[p].conf+"-workers"] = strconv.Itoa(workers)
 			}
+			if pi%2 == 1 {
+				// the receive buffer exactly as long as the full-size datagrams of the bursts (30 flows = 1464 octets)
+				conf["netflow5-udp-size"] = "1464"
+			}
 			writeConf(pdir, conf, sink.port)
 			quiet := []time.Duration{1300 * time.Millisecond, 2200 * time.Millisecond, 3300 * time.Millisecond, 1100 * time.Millisecond}[pi%4]
-			desc := fmt.Sprintf("idle %v then burst, three times; %v workers=%d", quiet, protos, workers)
+			desc := fmt.Sprintf("idle %v then burst, three times; %v workers=%d netflow5-udp-size=%s", quiet, protos, workers, map[bool]string{true: "1464 (= the datagrams)", false: "1500"}[pi%2 == 1])
 			col, err := startCollector(bin, pdir, nil, nil, nil)
 			if err != nil {
 				run.HarnessError(err.Error())
@@ -255,6 +259,6 @@ func idleBurstMain(args mon.Args) {
 	run.Set("bursts_after_a_quiet_period", bursts)
 	run.Set("datagrams_sent", totalSent)
 	run.Set("lines_at_the_sink", totalLines)
-	run.SetRule("end-to-end tier: the real binary; exporters stay quiet for 1.1-3.3 s (the receive loops' one-second read deadlines expire), then send 24 distinct full-size datagrams per protocol back to back, three times; every line at the sink must equal the stand-alone decode of the datagram whose identity (exporter, sequence number) it carries, at most once, and every datagram must be published when the kernel dropped none. C08: NetFlow v5 only (30-flow datagrams); C12: all four protocols. distinct = quiet period x worker count")
+	run.SetRule("end-to-end tier: the real binary; exporters stay quiet for 1.1-3.3 s (the receive loops' one-second read deadlines expire), then send 24 distinct full-size datagrams per protocol back to back, three times; every line at the sink must equal the stand-alone decode of the datagram whose identity (exporter, sequence number) it carries, at most once, and every datagram must be published when the kernel dropped none. C08: NetFlow v5 only (30-flow datagrams of 1464 octets; in every second process netflow5-udp-size is 1464 as well, so that each datagram fills the receive buffer exactly); C12: all four protocols. distinct = quiet period x worker count")
 	run.Finish()
 }
